@@ -162,7 +162,35 @@ Theorem C07_empty_table_name_rejected :
 Proof. exact empty_table_name_rejected. Qed.
 Print Assumptions C07_empty_table_name_rejected.
 
+(* One application object reused for a run and its continuation (parent_application; its
+   starting_id / rep_count are never reset): after a run with criterion (T, N) that ended
+   normally at id [last], the object is in a state ... *)
+Theorem C07_reused_application_state :
+  forall T rs j a m n last,
+    proper_table T -> c_table (a_crit a) = T -> 0 <= a_rep_count a ->
+    loop rs j a m = Stopped n last ->
+    a_crit (final_app rs a m) = a_crit a /\
+    a_starting_id (final_app rs a m) = last /\
+    1 <= a_rep_count (final_app rs a m).
+Proof. intros T rs j a m n last HT. exact (final_app_stopped T rs HT j a m n last). Qed.
+Print Assumptions C07_reused_application_state.
+
+(* ... from which it decides the continuation exactly like a new object with that criterion:
+   all the theorems above carry over; rows are counted from the continuation's start. *)
+Theorem C07_reused_application_same_as_new :
+  forall T tables N last0 a rs,
+    proper_table T -> a_crit a = mkCrit T N -> a_starting_id a = last0 -> 1 <= a_rep_count a ->
+    run_with tables a (Some last0) rs = run tables (Some (mkCrit T N)) (Some last0) rs.
+Proof. exact reused_application_same_as_new. Qed.
+Print Assumptions C07_reused_application_same_as_new.
+
 (* ---- non-vacuity: concrete runs that satisfy the hypotheses ---- *)
+Example C07_ex_reuse :               (* one object, target (T,4), 2 rows per iteration, 3 runs *)
+  chain_reuse ["M"; "T"; "E"]%string (new_app (Some (mkCrit "T" 4))) None
+              [2; 2; 2; 2; 2; 2; 2; 2] [7%nat; 7%nat; 7%nat]
+  = [Stopped 2 4; Stopped 2 8; Stopped 2 12].
+Proof. vm_compute. reflexivity. Qed.
+
 Example C07_ex_fresh_target :        (* 2 + 3 < 7 <= 2 + 3 + 2 *)
   run ["M"; "T"]%string (Some (mkCrit "T" 7)) None [2; 3; 2; 5] = Stopped 3 7.
 Proof. vm_compute. reflexivity. Qed.
